@@ -286,10 +286,80 @@ def run_C10(ctx, proof_ok):
             "distribution": {"combine": dist, "combine_checks": n1, "nesting_checks": n2}}
 
 
+def unjson(x):
+    """inverse of lib.jsonable for the shapes used in replay inputs"""
+    if isinstance(x, dict):
+        if set(x) == {"re", "im"}:
+            v = np.asarray(x["re"], dtype=float) + 1j * np.asarray(x["im"], dtype=float)
+            return complex(v) if v.ndim == 0 else v
+        return {k: unjson(v) for k, v in x.items()}
+    if isinstance(x, list):
+        return [unjson(v) for v in x]
+    return x
+
+
 def replay_generic(ctx, data):
-    print("replay input:", json.dumps(data.get("input"))[:2000])
-    print("problems recorded:", data.get("problems"))
-    return 1
+    """re-run the recorded input on the current /repo (and on the model where the violation came from a correspondence);
+    exit 1 when the disagreement is still there, 0 when it is gone; searches that draw further random choices only print"""
+    kind = data.get("kind", "")
+    inp = unjson(data.get("input"))
+    print("replay of", kind)
+    print("input:", json.dumps(data.get("input"))[:1500])
+    print("problems recorded:", json.dumps(data.get("problems"))[:800])
+    E = epg()
+    dd = None
+    try:
+        if isinstance(inp, dict) and "init" in inp and isinstance(inp["init"], list):
+            inp["init"] = (None if inp["init"][0] is None else np.asarray(inp["init"][0]), inp["init"][1])
+        if kind == "model-vs-epgpy simulate":
+            import simc
+            _, dd, _ = simc.compare([inp], E)
+        elif kind == "model-vs-epgpy rfpulse":
+            import rfc
+            inp["values"] = np.asarray(inp["values"], dtype=complex)
+            _, dd = rfc.compare([inp], E)
+        elif kind == "model-vs-epgpy nd":
+            import ndc
+            _, dd, _ = ndc.compare([inp], E)
+        elif kind == "model-vs-epgpy diffusion":
+            import difc
+            _, dd = difc.compare([inp], E)
+        elif kind == "model-vs-epgpy exchange":
+            import exc
+            _, dd = exc.compare([inp], E)
+        elif kind == "model-vs-epgpy imaging":
+            import imgc
+            if isinstance(inp.get("modulation"), (int, float)):
+                inp["modulation"] = complex(inp["modulation"])
+            _, dd, _ = imgc.compare([inp], E)
+        elif kind == "c09-history":
+            import heapc
+            hist = [tuple(c) for c in inp["history"]]
+            lines, handles, kinds_, obs, probs = heapc.run_history(lib.rng(9), E, hist)
+            dd = [{"kind": kind, "problems": probs}] if probs else []
+            print("(aliasing / untouched-content comparison against the model needs the full check; object-level problems re-run)")
+    except Exception as exc:
+        print("replay could not re-run the input:", repr(exc))
+        return 1
+    if dd is None:
+        # the search that found this input draws every random choice from VERIF_SEED: re-run the property's
+        # correspondence + search under the recorded seed and tier and look for a violation of the same kind
+        os.environ["VERIF_SEED"] = str(data.get("seed", 0))
+        ctx.tier = data.get("tier", "quick")
+        print(f"replay: re-running the {ctx.prop} search with VERIF_SEED={os.environ['VERIF_SEED']} tier={ctx.tier}")
+        ctx.violations = []
+        PROPS[ctx.prop]["run"](ctx, True)
+        known = json.load(open(os.path.join(VERIF, "known_findings.json")))
+        dd = [v for v in ctx.violations if not match_known(ctx.prop, v, known)]
+        same = [v for v in dd if v.get("kind") == kind]
+        for d in (same or dd)[:3]:
+            print("still fails:", d.get("kind"), json.dumps(lib.jsonable(d.get("problems", d.get("error"))))[:600])
+        print("replay:", "VIOLATION reproduced" if same else ("another violation of this property found" if dd else "no violation any more"))
+        return 1 if dd else 0
+    for d in dd:
+        print("still disagrees:", d.get("kind"), json.dumps(lib.jsonable(d.get("problems")))[:600])
+    print("replay:", "VIOLATION reproduced" if dd else "no disagreement any more")
+    return 1 if dd else 0
 
 
 def run_C16(ctx, proof_ok):
@@ -804,11 +874,14 @@ PROPS["C08"] = {
 }
 
 DIFF_PARTIAL = ["proved: (i) every coefficient's symbolic derivative is its derivative, also as a total derivative along a curve in "
-                "parameter space, (ii) regenerated tables = symbolic derivatives, (iii) the dictionary bookkeeping accumulates the "
-                "chain-rule terms exactly once, (iv) first order, one operator application (T and E instantiated): what the "
-                "bookkeeping stores is the derivative of the new state when the carried partial is the derivative of the old one. "
-                "The induction of (iv) over whole programs and the second-order analogue are exercised by the jet-specification "
-                "search, not stated as theorems"]
+                "parameter space, and stays defined (`defined_d`); (ii) regenerated tables = symbolic derivatives; (iii) the dictionary "
+                "bookkeeping accumulates the chain-rule terms exactly once; (iv) first order: what the bookkeeping stores is the "
+                "derivative of the new state when the carried partial is the derivative of the old one (T and E), lifted by induction "
+                "to whole programs of differentiable operator families (`C02Run.jacobian_exact`); (v) second order, RF pulse whose "
+                "flip angle and phase both depend on two variables a < b: the value `_apply_order2` stores under (a, b) is the "
+                "derivative with respect to b of the new first partial under a (`C03Run.T_mixed_partial_exact`). "
+                "Not stated as theorems: the second-order step for E / P / R and its induction over whole programs; those are exercised by "
+                "the jet-specification search"]
 for _p, _run, _tie in (("C02", run_C02, TIE_OP + TIE_D1), ("C03", run_C03, TIE_OP + TIE_D1 + TIE_D2), ("C19", run_C19, TIE_OP)):
     PROPS[_p] = {
         "lean_modules": [f"EpgVerif.Props.{_p}"],
@@ -1015,7 +1088,7 @@ PROPS["C09"] = {
 EXTRA_MODULES = {
     "C01": ["EpgVerif.Tie.ApplySites"],
     "C02": ["EpgVerif.Tie.DiffSites", "EpgVerif.Props.C02Run"],
-    "C03": ["EpgVerif.Tie.DiffSites"],
+    "C03": ["EpgVerif.Tie.DiffSites", "EpgVerif.Props.C03Run"],
     "C04": ["EpgVerif.Tie.ShiftSites"],
     "C05": ["EpgVerif.Tie.PhysSites", "EpgVerif.Props.C05Path"],
     "C06": ["EpgVerif.Tie.PhysSites", "EpgVerif.Tie.Exchange"],
